@@ -84,6 +84,25 @@ func refTo(from, to *gDoc, toks ...string) string {
 	return mkRef(relPath(from.path, to.path), toks...)
 }
 
+// refToAlt is refTo with, sometimes, an equivalent alternative spelling of the relative path ('./x/a.json',
+// 'x/../x/a.json'): the same document is then referred to under several spellings.
+func (g *bundleGen) refToAlt(from, to *gDoc, toks ...string) string {
+	if from == to || !g.on("altSpelling") || !g.r.P(50) {
+		return refTo(from, to, toks...)
+	}
+	rp := relPath(from.path, to.path)
+	if strings.HasPrefix(rp, "..") {
+		return mkRef(rp, toks...)
+	}
+	if g.r.P(60) {
+		return mkRef("./"+rp, toks...)
+	}
+	if i := strings.Index(rp, "/"); i > 0 {
+		return mkRef(rp[:i]+"/../"+rp, toks...)
+	}
+	return mkRef("./"+rp, toks...)
+}
+
 type optSet struct {
 	o    FlatOpts
 	name string
@@ -125,6 +144,7 @@ func genBundle(r *R, opts FlatOpts, plus bool, thorough bool, force map[string]b
 	flag("caseSiblings", 25)
 	flag("multiReferrers", 50)
 	flag("auxOnlyViaShared", 12)
+	flag("altSpelling", 25)
 	flag("security", 45)
 	flag("opMedia", 35)
 	flag("paramEnums", 35)
@@ -363,6 +383,7 @@ func (g *bundleGen) chooseNames() {
 		if len(rd.defNames) > 0 {
 			base := rd.defNames[g.r.Intn(len(rd.defNames))]
 			cands := []string{base + "OAIGen", base + "OAIGen1", base + "Owner", base + "Items", base + "Tuple0",
+				strings.ToLower(base) + "owner", strings.ToUpper(base) + "OWNER", strings.ToLower(base) + "items", strings.ToLower(base) + "data",
 				upperFirst(base) + "Owner", base + "AllOf1", base + "Data", base + "AdditionalProperties", base + "Anon"}
 			for i := 0; i < g.r.Range(1, 3); i++ {
 				c := g.r.Pick(cands)
@@ -446,7 +467,7 @@ func (g *bundleGen) refSchema(d *gDoc) (obj, bool) {
 	if !ok {
 		return nil, false
 	}
-	return obj{"$ref": refTo(d, td, "definitions", name)}, true
+	return obj{"$ref": g.refToAlt(d, td, "definitions", name)}, true
 }
 
 func (g *bundleGen) primitive() obj {
@@ -528,7 +549,15 @@ func (g *bundleGen) schema(d *gDoc, depth int, noRef bool, owner string) obj {
 			}
 			return obj{"type": "object", "additionalProperties": g.schema(d, depth-1, noRef, owner)}
 		case 7:
-			return obj{"type": "array", "items": g.schema(d, depth-1, noRef, owner)}
+			a := obj{"type": "array", "items": g.schema(d, depth-1, noRef, owner)}
+			if g.on("tuples") && r.P(12) {
+				// additionalItems next to a single items schema (legal, if unusual): one more $ref holder kind
+				a["additionalItems"] = g.schema(d, depth-1, noRef, owner)
+				if r.P(30) {
+					delete(a, "items")
+				}
+			}
+			return a
 		case 8:
 			if !g.on("tuples") {
 				continue
@@ -827,6 +856,13 @@ func (g *bundleGen) pathItem(d *gDoc, hasID bool) obj {
 	if hasID {
 		pi["parameters"] = []any{obj{"name": "id", "in": "path", "required": true, "type": "string"}}
 	}
+	if r.P(35) {
+		pl, _ := pi["parameters"].([]any)
+		for i := 0; i < r.Range(1, 3); i++ {
+			pl = append(pl, g.simpleParam(fmt.Sprintf("pq%d", i), "query"))
+		}
+		pi["parameters"] = pl
+	}
 	if r.P(15) {
 		pl, _ := pi["parameters"].([]any)
 		pl = append(pl, g.bodyParam(d, "pbody"))
@@ -897,7 +933,7 @@ func (g *bundleGen) ensureAuxUsed() {
 		}
 		for i, n := range want {
 			holder := fmt.Sprintf("uses%s%d", strings.TrimSuffix(path.Base(ad.path), ".json"), i)
-			ref := obj{"$ref": refTo(rd, ad, "definitions", n)}
+			ref := obj{"$ref": g.refToAlt(rd, ad, "definitions", n)}
 			switch g.r.Intn(4) {
 			case 0:
 				rd.defs[holder] = obj{"type": "object", "properties": obj{"ext": ref}}
@@ -912,7 +948,7 @@ func (g *bundleGen) ensureAuxUsed() {
 			if g.on("multiReferrers") && g.r.P(60) {
 				// further referrers of the same imported definition, at other kinds of places
 				for u := 0; u < g.r.Range(1, 2); u++ {
-					ref2 := obj{"$ref": refTo(rd, ad, "definitions", n)}
+					ref2 := obj{"$ref": g.refToAlt(rd, ad, "definitions", n)}
 					switch g.r.Intn(4) {
 					case 0:
 						h2 := fmt.Sprintf("%sAlso%d", holder, u)
@@ -962,7 +998,7 @@ func (g *bundleGen) ensureSharedAuxUse() {
 // sibling properties 'Id'/'id'), each holding an inline complex schema at the same sub-location, so that both
 // claim the same generated name.
 func (g *bundleGen) plantCaseSiblings() {
-	rd := g.docs[0]
+	_ = g.docs[0]
 	swapCase := func(s string) string {
 		rs := []rune(s)
 		if len(rs) == 0 {
@@ -978,12 +1014,26 @@ func (g *bundleGen) plantCaseSiblings() {
 	inner := func(tag string) obj {
 		return obj{"type": "object", "properties": obj{"detail": obj{"type": "object", "properties": obj{"v" + tag: g.primitive()}}, "n": g.primitive()}}
 	}
-	base := g.r.Pick([]string{"order", "widget", "Case", "basket"})
-	other := swapCase(base)
-	if _, ok := rd.defs[base]; !ok {
-		if _, ok2 := rd.defs[other]; !ok2 {
-			g.addRootDef(base, inner("1"))
-			g.addRootDef(other, inner("2"))
+	// the pair must not collide (up to case/punctuation) with any definition of an auxiliary document: a colliding
+	// import has to be $ref-free in W, and that was decided when the names were chosen
+	taken := map[string]bool{}
+	for _, d := range g.docs {
+		for _, n := range d.defNames {
+			taken[normName(n)] = true
+		}
+	}
+	var cands []string
+	for _, c := range []string{"widget", "Gizmo", "basket", "Crate", "sprocket"} {
+		if !taken[normName(c)] {
+			cands = append(cands, c)
+		}
+	}
+	if len(cands) > 0 {
+		base := g.r.Pick(cands)
+		g.addRootDef(base, inner("1"))
+		g.addRootDef(swapCase(base), inner("2"))
+		if g.r.P(40) {
+			g.addRootOp("/case"+base, obj{"$ref": mkRef("", "definitions", base)})
 		}
 	}
 	if g.r.P(50) {
@@ -991,10 +1041,6 @@ func (g *bundleGen) plantCaseSiblings() {
 		g.addRootDef("caseProps", obj{"type": "object", "properties": obj{
 			"Id": obj{"type": "object", "properties": obj{"a": g.primitive()}},
 			"id": obj{"type": "object", "properties": obj{"b": g.primitive()}}}})
-	}
-	if g.r.P(40) {
-		// anonymous-pointer targets differing only by case are exercised through the normal pointer planting
-		g.addRootOp("/case"+base, obj{"$ref": mkRef("", "definitions", base)})
 	}
 }
 
